@@ -318,7 +318,8 @@ def large_cases(tier):
     """16-45 states (discounted any-sign rewards; proper undiscounted / discounted cost problems)"""
     from vpm.gen.mdp import large_mdp_specs
     return st.tuples(st.one_of(large_mdp_specs("discounted"), large_mdp_specs("discounted", gammas=[0.99, 0.999]),
-                               large_mdp_specs("ssp"), large_mdp_specs("dproper")),
+                               large_mdp_specs("ssp"), large_mdp_specs("dproper"),
+                               large_mdp_specs("discounted", min_states=101, max_states=130, max_actions=2, max_out=3, gammas=[0.5, 0.9])),
                      st.sampled_from(["vi_vec", "vi_vec", "pi", "pi", "vi_dict"]), st.sampled_from([1e-5, 1e-8, 1e-10]),
                      st.sampled_from([0, -7.5, "-inf"])).map(
         lambda t: {"mdp": t[0], "cfg": {"solver": t[1], "max_residual": t[2], "tiny_cap": 0, "undefined_value": t[3]}})
